@@ -7,9 +7,11 @@
 #include "language_names.h"
 #include "keywords.h"
 #include "option.h"
+#include "options.h"
 #include "chunk.h"
 #include "args.h"
 #include "char_table.h"
+#include "space.h"
 
 #include <cstdio>
 #include <cstring>
@@ -125,6 +127,121 @@ static string handle(const vector<string> &w)
       const chunk_tag_t *ct = find_punctuator(s.c_str(), lang);
       if (ct == nullptr) { return("none"); }
       return(to_string(strlen(ct->tag)));
+   }
+
+   if (w[0] == "punct.find" && w.size() == 4)
+   {
+      // punct.find <langflags hex> <enable_digraphs 0|1> <hex text>
+      vector<long> v;
+      if (!parse_hex_list(w[3], v) || (w[2] != "0" && w[2] != "1")) { return("bad-op"); }
+      string s;
+      for (long c : v) { s.push_back(static_cast<char>(c)); }
+      size_t lang = strtoul(w[1].c_str(), nullptr, 16);
+      options::enable_digraphs = (w[2] == "1");
+      const chunk_tag_t *ct = find_punctuator(s.c_str(), lang);
+      options::enable_digraphs = false;
+      if (ct == nullptr) { return("none"); }
+      return(to_string(strlen(ct->tag)));
+   }
+
+   if (w[0] == "punct.sweep" && (w.size() == 5 || w.size() == 6))
+   {
+      // optional 6th word: prefixes (hex lists joined by ',') whose extensions are skipped (answer 'x')
+      vector<string> skip;
+      if (w.size() == 6)
+      {
+         istringstream ss(w[5]);
+         string part;
+         while (getline(ss, part, ','))
+         {
+            vector<long> pv;
+            if (!parse_hex_list(part, pv)) { return("bad-op"); }
+            string ps;
+            for (long c : pv) { ps.push_back(static_cast<char>(c)); }
+            skip.push_back(ps);
+         }
+      }
+      // punct.sweep <langflags hex> <dig 0|1> <alphabet hex list> <len>: one result char per string of
+      // exactly <len> alphabet characters, in odometer order (last position fastest): '0' = nullptr, else strlen(tag)
+      vector<long> al;
+      if (!parse_hex_list(w[3], al) || al.empty() || (w[2] != "0" && w[2] != "1")) { return("bad-op"); }
+      size_t len  = strtoul(w[4].c_str(), nullptr, 10);
+      size_t lang = strtoul(w[1].c_str(), nullptr, 16);
+      if (len < 1 || len > 6) { return("bad-op"); }
+      options::enable_digraphs = (w[2] == "1");
+      vector<size_t> idx(len, 0);
+      string out;
+      string s(len, ' ');
+      while (true)
+      {
+         for (size_t i = 0; i < len; i++) { s[i] = static_cast<char>(al[idx[i]]); }
+         bool skipped = false;
+         for (const string &ps : skip) { if (s.compare(0, ps.size(), ps) == 0) { skipped = true; } }
+         if (skipped)
+         {
+            out.push_back('x');
+         }
+         else
+         {
+            const chunk_tag_t *ct = find_punctuator(s.c_str(), lang);
+            out.push_back(ct == nullptr ? '0' : static_cast<char>('0' + strlen(ct->tag)));
+         }
+         size_t p = len;
+         while (p > 0 && ++idx[p - 1] == al.size()) { idx[p - 1] = 0; p--; }
+         if (p == 0) { break; }
+      }
+      options::enable_digraphs = false;
+      return(out);
+   }
+
+   if (w[0] == "space.force" && w.size() == 8)
+   {
+      // space.force <langflags hex> <enable_digraphs> <sp_permit_cpp11_shift> <pc text> <pc ANGLE_CLOSE?> <next text> <next ANGLE_CLOSE?>
+      // builds the two-chunk list [pc, next], runs the real space_text() and reports PCF_FORCE_SPACE of pc
+      vector<long> a, b;
+      if (!parse_hex_list(w[4], a) || !parse_hex_list(w[6], b) || a.empty()) { return("bad-op"); }
+      cpd.lang_flags = strtoul(w[1].c_str(), nullptr, 16);
+      options::enable_digraphs       = (w[2] == "1");
+      options::sp_permit_cpp11_shift = (w[3] == "1");
+      for (Chunk *h = Chunk::GetHead(); h->IsNotNullChunk(); h = Chunk::GetHead()) { Chunk::Delete(h); }
+      auto mk = [](const vector<long> &t, bool angle, size_t col) {
+                   Chunk c;
+                   string s;
+                   for (long ch : t) { c.Str().append(static_cast<int>(ch)); if (ch < 128) { s.push_back(static_cast<char>(ch)); } }
+                   E_Token ty = CT_WORD;
+                   if (angle) { ty = CT_ANGLE_CLOSE; }
+                   else if (!t.empty() && t[0] >= '0' && t[0] <= '9') { ty = CT_NUMBER; }
+                   else if (!t.empty() && !CharTable::IsKw1(t[0]))
+                   {
+                      const chunk_tag_t *ct = find_punctuator(s.c_str(), cpd.lang_flags);
+                      ty = (ct != nullptr && strlen(ct->tag) == s.size()) ? ct->type : CT_UNKNOWN;
+                      if (ty == CT_ANGLE_CLOSE) { ty = CT_COMPARE; }   // a '>' that is not a template close
+                   }
+                   c.SetType(ty);
+                   c.SetOrigLine(1);
+                   c.SetOrigCol(col);
+                   c.SetOrigColEnd(col + t.size());
+                   c.SetColumn(col);
+                   return(c);
+                };
+      Chunk ca  = mk(a, w[5] == "1", 1);
+      Chunk cb  = mk(b, w[7] == "1", 1 + a.size() + 1);
+      Chunk *pa = ca.CopyAndAddBefore(Chunk::NullChunkPtr);
+      if (b.empty() && w[7] != "1") { cb.SetType(CT_VBRACE_OPEN); }
+      Chunk *pb = cb.CopyAndAddBefore(Chunk::NullChunkPtr);
+      (void)pb;
+      if (b.empty())
+      {
+         // an empty `next` (virtual brace) followed by a word on the same line: the `tmp` of the safety check
+         Chunk cx = mk(vector<long>{ 'x' }, false, 1 + a.size() + 1);
+         cx.CopyAndAddBefore(Chunk::NullChunkPtr);
+      }
+      space_text();
+      string r = pa->TestFlags(PCF_FORCE_SPACE) ? "1" : "0";
+      for (Chunk *h = Chunk::GetHead(); h->IsNotNullChunk(); h = Chunk::GetHead()) { Chunk::Delete(h); }
+      options::enable_digraphs       = false;
+      options::sp_permit_cpp11_shift = false;
+      return(r);
    }
 
    if (w[0] == "chartable" && w.size() == 2)
